@@ -61,7 +61,10 @@ fn rfc_framing(method: &str, status: u16, cls: &[&str], tes: &[&str]) -> Expect 
 #[allow(clippy::too_many_arguments)]
 fn run_one(m: &str, st: u16, cls: &[&str], tes: &[&str], others: &(Vec<(&str, &str)>, Vec<(&str, &str)>, &str), body: &[u8], bi: usize, sink: &mut Sink) {
     let body: &&[u8] = &body;
-    let mut head = format!("HTTP/1.1 {} X\r\n", st).into_bytes();
+    // the protocol-version token is not an input of the framing rule (seed C03-seed10: chunked ignored on
+    // responses labelled HTTP/1.0)
+    let version = ["HTTP/1.1", "HTTP/1.0", "HTTP/1.1", "HTTP/1.0", "HTTP/2.0"][(cls.len() * 7 + tes.len() * 3 + bi + st as usize + m.len()) % 5];
+    let mut head = format!("{} {} X\r\n", version, st).into_bytes();
     for (n, v) in &others.0 {
         head.extend_from_slice(format!("{}: {}\r\n", n, v).as_bytes());
     }
@@ -144,6 +147,7 @@ fn run_one(m: &str, st: u16, cls: &[&str], tes: &[&str], others: &(Vec<(&str, &s
             format!("nte={}", tes.len()),
             format!("trail={}", bi == 1),
             format!("other-fields={}", others.2),
+            format!("version={}", version),
         ],
         op: case.op_line(),
         impl_line: out.line(),
